@@ -162,7 +162,8 @@ theorem feed22_accumulates (data : List Nat) (hpos : 0 < data.length) (mid : Mes
 theorem eom22_delivers (cfg : Cfg) (s : St) (now : Nat) (mid : MessageId) (dest : Nat) (f : List Nat) (r : Rcv) (session : Nat)
     (hlen : 12 ≤ f.length) (hc : Tp22.cm_control f = Const.CM22.EOM_STATUS) (hs : Tp22.cm_session f = session)
     (hsz : Tp22.cm_size f = r.messageSize) (hn : Tp22.cm_segment f = r.numSegments)
-    (hr : s.rcv.get? (Tp22.buffer_hash session mid.source_address dest) = some r) (hd : r.data.length = r.messageSize) :
+    (hr : s.rcv.get? (Tp22.buffer_hash session mid.source_address dest) = some r) (hd : r.data.length = r.messageSize)
+    (hsrc : mid.source_address ≠ Const.Addr.GLOBAL) :
     deliveries (processCm cfg s now mid dest f).outs = [(mid.priority, r.pgn, mid.source_address, dest, r.data)] ∧
     (processCm cfg s now mid dest f).err = none ∧
     (processCm cfg s now mid dest f).st.rcv.get? (Tp22.buffer_hash session mid.source_address dest) = none ∧
@@ -170,8 +171,9 @@ theorem eom22_delivers (cfg : Cfg) (s : St) (now : Nat) (mid : MessageId) (dest 
   have hl : ¬ f.length < 12 := by omega
   have c1 : (Const.CM22.EOM_STATUS == Const.CM22.RTS) = false := by decide
   have c2 : (Const.CM22.EOM_STATUS == Const.CM22.CTS) = false := by decide
+  have hsrc' : (mid.source_address == Const.Addr.GLOBAL) = false := by simpa using hsrc
   unfold processCm
-  simp only [hl, if_false, hc, c1, c2, Bool.false_eq_true, hs, hr, hsz, hn, hd, beq_self_eq_true, Bool.and_self, if_true]
+  simp only [hl, if_false, hsrc', hc, c1, c2, Bool.false_eq_true, hs, hr, hsz, hn, hd, beq_self_eq_true, Bool.and_self, if_true]
   refine ⟨?_, trivial, PyDict.get?_erase_self _ _, trivial⟩
   split <;> simp [deliveries]
 
